@@ -1,25 +1,28 @@
 (* Proofs/InterruptNestedDag.v — resume_equiv_nested for forests that mix Graphs in any-predecessor mode with
-   Graphs in all-predecessor mode WITHOUT BRANCHES (owner: C05): the channel layer of the latter is
-   Proofs/InterruptChanDag.v (joint invariant of C02's Proofs/DagInv.v). *)
+   Graphs in all-predecessor mode (owner: C05): the channel layer of the latter is
+   Proofs/InterruptChanDag.v + Proofs/InterruptChanDagSkip.v (joint invariant of C02's Proofs/DagInv.v; the
+   skip propagation computes a least fixpoint that does not depend on the order of the completed tasks). *)
 From Eino Require Import Base.Util Model.Graph Model.RunLoop Model.Interrupt
      Proofs.RunLoop Proofs.RunLoopSusp Proofs.InterruptChan Proofs.InterruptChanPregel Proofs.Interrupt
-     Proofs.InterruptRerun Proofs.InterruptNested Proofs.DagInv Proofs.InterruptChanDag.
+     Proofs.InterruptRerun Proofs.InterruptNested Proofs.DagInv Proofs.InterruptChanDag Proofs.InterruptChanDagSkip.
 From Coq Require Import Permutation.
 Open Scope N_scope.
 
-Definition nobranch (gr : graph) : Prop := forall n, In n (g_nodes gr) -> n_branches n = [].
+(* what the Graph API builds: every edge carries data and control, every branch carries data *)
+Definition graph_built (gr : graph) : Prop :=
+  forall n, In n (g_nodes gr) -> n_dsucc n = n_csucc n /\ forall b, In b (n_branches n) -> b_nodata b = false.
 
-(* a Graph (batch mode) whose channel layer is covered: any-predecessor mode, or all-predecessor mode without
-   branches (END has a predecessor: Compile guarantees it) *)
+(* a Graph (batch mode): any-predecessor mode, or all-predecessor mode (END has a predecessor: Compile
+   guarantees it) *)
 Definition batch_graph (g : gspec) : Prop :=
   g_eager (gs_graph g) = false /\ rerun_ok' g /\
   (g_mode (gs_graph g) = Pregel \/
-   (g_mode (gs_graph g) = Dag /\ nobranch (gs_graph g) /\ exists q, gpred (gs_graph g) kEND q)).
+   (g_mode (gs_graph g) = Dag /\ graph_built (gs_graph g) /\ exists q, gpred (gs_graph g) kEND q)).
 
 Definition batchJ (g : gspec) (cs : chans value) (P : list N) : Prop :=
   match g_mode (gs_graph g) with
   | Pregel => pinv cs
-  | Dag => dagJ (gs_graph g) cs P
+  | Dag => dagJ2 (gs_graph g) cs P
   end.
 
 Lemma batch_good : forall g, batch_graph g -> good_graph batchJ g.
@@ -31,9 +34,9 @@ Proof.
       rewrite E. apply chan_layer_pregel. exact Hm.
     + intros cs0 Hi. unfold batchJ. rewrite Hm. eapply init_chans_pinv; eauto.
   - split.
-    + assert (E : batchJ g = dagJ (gs_graph g)) by (unfold batchJ; rewrite Hm; reflexivity).
-      rewrite E. apply chan_layer_dag_nb; auto.
-    + intros cs0 Hi. unfold batchJ. rewrite Hm. apply dagJ_init; auto.
+    + assert (E : batchJ g = dagJ2 (gs_graph g)) by (unfold batchJ; rewrite Hm; reflexivity).
+      rewrite E. apply chan_layer_dag; auto.
+    + intros cs0 Hi. unfold batchJ. rewrite Hm. apply dagJ2_init; auto.
 Qed.
 
 Lemma pregel_batch : forall g, pregel_graph g -> batch_graph g.
@@ -76,7 +79,7 @@ Proof.
   constructor; [|constructor]. split; [reflexivity|]. split.
   - intros k l H. simpl in H. destruct (N.eqb k 2) eqn:E2; [apply N.eqb_eq in E2; subst; split; reflexivity|discriminate].
   - right. split; [reflexivity|]. split.
-    + intros n Hn. simpl in Hn. repeat (destruct Hn as [<-|Hn]; [reflexivity|]). destruct Hn.
+    + intros n Hn. simpl in Hn. repeat (destruct Hn as [<-|Hn]; [split; [reflexivity|intros b []]|]). destruct Hn.
     + exists 4. left. vm_compute. left. reflexivity.
 Qed.
 
@@ -93,4 +96,43 @@ Lemma wd_interrupted : exists co1 co2 co3 e v,
 Proof.
   do 5 eexists. split; [vm_compute; reflexivity|]. split; [do 2 eexists; split; reflexivity|].
   split; [do 2 eexists; split; reflexivity|]. split; vm_compute; reflexivity.
+Qed.
+
+(* ---------- non-vacuity with a branch: START -> {2, 6}; 2 branches over {3, 4} and selects 3 (4 is skipped, the
+   skip is propagated to the join 5); 3, 4, 6 -> 5 -> END; node 6 aborts its first attempt while 2 completes: the
+   mid-step checkpoint holds the skip reports of 2; the second call re-runs 6 and completes. ---------- *)
+Definition wb_g : gspec :=
+  Build_gspec (Build_graph [Build_node 0 KLambda None [2; 6] [2; 6] [] [];
+                            Build_node 2 KLambda None [] [] [] [Build_branch [3; 4] false [[3]]];
+                            Build_node 3 KLambda None [5] [5] [] [];
+                            Build_node 4 KLambda None [5] [5] [] [];
+                            Build_node 5 KLambda None [1] [1] [] [];
+                            Build_node 6 KLambda None [5] [5] [] []] Dag false 0%nat)
+              true [6] [(6, [1])] [] [] [] [].
+Definition wb_F := [wb_g].
+
+Lemma wb_batch : Forall batch_graph wb_F.
+Proof.
+  constructor; [|constructor]. split; [reflexivity|]. split.
+  - intros k l H. simpl in H. destruct (N.eqb k 6) eqn:E6; [apply N.eqb_eq in E6; subst; split; reflexivity|discriminate].
+  - right. split; [reflexivity|]. split.
+    + intros n Hn. simpl in Hn.
+      destruct Hn as [<-|Hn]; [split; [reflexivity|intros b []]|].
+      destruct Hn as [<-|Hn]; [split; [reflexivity|intros b [<-|[]]; reflexivity]|].
+      repeat (destruct Hn as [<-|Hn]; [split; [reflexivity|intros b []]|]). destruct Hn.
+    + exists 5. left. vm_compute. left. reflexivity.
+Qed.
+
+Lemma wb_reference : exists coU eU v,
+  run_drive (map strip wb_F) false [] wn_x (env0 []) = ([coU], eU) /\ co_out coU = ODone v /\
+  List.length (trE eU) = 4%nat.
+Proof. do 3 eexists. split; [vm_compute; reflexivity|]. split; vm_compute; reflexivity. Qed.
+
+Lemma wb_interrupted : exists co1 co2 e v,
+  run_drive wb_F true [] wn_x (env0 []) = ([co1; co2], e) /\
+  (exists i1 c1, co_out co1 = OInterrupted i1 c1 /\ ii_rerun i1 = [6]) /\
+  co_out co2 = ODone v /\ List.length (trE e) = 4%nat.
+Proof.
+  do 4 eexists. split; [vm_compute; reflexivity|]. split; [do 2 eexists; split; reflexivity|].
+  split; vm_compute; reflexivity.
 Qed.
